@@ -119,6 +119,12 @@ func main() {
 	dump := flag.String("dump", "", "debug: preds|flow:<func>|forms|dispatch")
 	replay := flag.String("replay", "", "replay file: re-evaluate the property of that obligation verbosely")
 	flag.Parse()
+	// a soft heap limit: the explorations allocate fast and most of it is garbage at once;
+	// without a limit the heap is allowed to double between collections and a heavy
+	// exploration peaks above 20 GB where 6-8 GB suffice (same run time)
+	if os.Getenv("GOMEMLIMIT") == "" {
+		debug.SetMemoryLimit(6 << 30)
+	}
 	if *tier == "" {
 		*tier = os.Getenv("VERIF_TIER")
 	}
